@@ -65,30 +65,36 @@ def inRange (x lo hi : Int) : Bool := Facts.C13.inRangeT x lo hi
 (`return nil`), `some i` = the i-th `return <error>` in source order. -/
 def checkDHParams (p g ga gb : Int) : Option Nat := Facts.C13.checkDHParamsT p g ga gb
 
-/-! ## DecomposePQ -/
+/-! ## DecomposePQ
 
-/-- one `x + y mod what` step: `c.Add(c, a); if c.Cmp(what) >= 0 { c.Sub(c, what) }`. -/
-def addMod (what a c : Nat) : Nat := if c + a ≥ what then c + a - what else c + a
+The straight-line pieces and the loop conditions are **translated from the Go source**
+(`Facts.C13.pqDrawVT … pqMulContT`, harness/c13/pqtr.go); here only the skeleton of the three nested
+loops (as fuel-bounded recursions), the draw of the random words and the division-by-zero panics are
+written by hand. -/
 
-/-- the `for b.Cmp(value0) == 1` loop: binary multiplication, returns `c` (= `(c + a·b) mod what`). -/
-def mulAddLoop (what a b c : Nat) : Nat :=
-  if h : b = 0 then c
-  else
-    mulAddLoop what (addMod what a a) (b / 2) (if b % 2 = 1 then addMod what a c else c)
-termination_by b
-decreasing_by omega
+/-- the `for b.Cmp(value0) == 1 { … }` loop (binary multiplication), at most `fuel` iterations;
+returns `c`. -/
+def mulLoop (what : Nat) : Nat → Nat → Nat → Nat → Nat
+  | 0, _, _, c => c
+  | fuel + 1, a, b, c =>
+    if Facts.C13.pqMulContT b then
+      let r := Facts.C13.pqMulStepT a b c what -- (b2, c, a, b)
+      mulLoop what fuel r.2.2.1 r.2.2.2 r.2.1
+    else c
 
-/-- `z = x − y mod what`: `if x.Cmp(y) == -1 { z = what + x − y } else { z = x − y }`. -/
-def subMod (what x y : Nat) : Nat := if x < y then what + x - y else x - y
+/-- the innermost loop with enough fuel (`b` halves in every iteration). -/
+def mulAddLoop (what a b c : Nat) : Nat := mulLoop what (b + 1) a b c
 
-/-- the `for j < lim && flag` loop; `fuel = lim − j`; returns the final `g`. -/
-def rhoInner (what v : Nat) : Nat → Nat → Nat → Nat → Nat → Nat
-  | 0, _, _, _, g => g
-  | fuel + 1, j, x, y, _ =>
-    let x' := mulAddLoop what x x v
-    let g' := Nat.gcd (subMod what x' y) what
-    let y' := if j &&& (j - 1) = 0 then x' else y
-    if g' ≠ Facts.C13.pqValue1 then g' else rhoInner what v fuel (j + 1) x' y' g'
+/-- the `for j < lim && flag { … }` loop, at most `fuel` iterations; returns the final `g`. -/
+def rhoInner (what v : Nat) : Nat → Nat → Nat → Bool → Nat → Nat → Nat → Nat
+  | 0, _, _, _, _, _, g => g
+  | fuel + 1, j, lim, flag, x, y, g =>
+    if Facts.C13.pqInnerContT j lim flag then
+      let i3 := Facts.C13.pqInnerInitT x v -- (a, b, c)
+      let c := mulAddLoop what i3.1 i3.2.1 i3.2.2
+      let t := Facts.C13.pqInnerTailT c y what j flag -- (x, z, g, y, j, flag)
+      rhoInner what v fuel t.2.2.2.2.1 lim t.2.2.2.2.2 t.1 t.2.2.2.1 t.2.2.1
+    else g
 
 inductive PQErr where
   | tape
@@ -96,27 +102,24 @@ inductive PQErr where
   | panic
   deriving Repr, DecidableEq
 
-/-- result construction at the end of `DecomposePQ`. -/
-def pqFinish (what g : Nat) : Nat × Nat :=
-  let p := g
-  let q := what / g
-  if p > q then (q, p) else (p, q)
-
-/-- the outer `for !(1 < g < what)` loop; `i` = round counter, `tape` = remaining random words; a result carries the number of rounds done.
-Each round first draws `v` (panics for `what = 0`), then `x` (panics for `what = 1`). -/
+/-- the outer `for !(1 < g < what)` loop; `i` = round counter, `tape` = remaining random words
+(`rand.Int(src, 2^64)`); a result carries the number of rounds done.  Each round first draws `v`
+(panics for `what = 0`), then `x` (panics for `what = 1`). -/
 def pqLoop (what : Nat) : List Nat → Nat → Nat → Except PQErr (Nat × Nat × Nat)
   | tape, i, g =>
-    if Facts.C13.pqValue1 < g ∧ g < what then .ok ((pqFinish what g).1, (pqFinish what g).2, i)
+    if !Facts.C13.pqOuterContT g what then
+      .ok ((Facts.C13.pqFinishT g what).1, (Facts.C13.pqFinishT g what).2, i)
     else match tape with
       | [] => .error .tape
       | [_] => if what = 0 then .error .panic else .error .tape
       | r1 :: r2 :: rest =>
-        if what = 0 ∨ what = Facts.C13.pqValue1 then .error .panic
+        if what = 0 ∨ what = 1 then .error .panic
         else
-          let v := ((r1 % 2 ^ Facts.C13.pqRndBits &&& Facts.C13.pqMask) + Facts.C13.pqAdd) % what
-          let x := (r2 % 2 ^ Facts.C13.pqRndBits) % (what - Facts.C13.pqValue1) + Facts.C13.pqValue1
-          let lim := 2 ^ (i + Facts.C13.pqLimShift)
-          pqLoop what rest (i + 1) (rhoInner what v (lim - 1) 1 x x g)
+          let v := Facts.C13.pqDrawVT (r1 % 2 ^ Facts.C13.pqRndBits) what
+          let ri := Facts.C13.pqRoundInitT (r2 % 2 ^ Facts.C13.pqRndBits) what i -- (whatNext, x, y, lim, j, flag)
+          let lim := ri.2.2.2.1
+          pqLoop what rest (i + 1)
+            (rhoInner what v lim ri.2.2.2.2.1 lim ri.2.2.2.2.2 ri.2.1 ri.2.2.1 g)
 
 /-- `crypto.DecomposePQ pq randSource` for `pq ≥ 0` (`.panic` = the division-by-zero panics of `pq ∈ {0, 1}`). -/
 def decomposePQ (pq : Nat) (tape : List Nat) : Except PQErr (Nat × Nat) :=
@@ -130,5 +133,19 @@ def decomposeRounds (pq : Nat) (tape : List Nat) : Option Nat :=
   match pqLoop pq tape 0 0 with
   | .ok (_, _, k) => some k
   | .error _ => none
+
+/-! ### Specification-side readings of the translated pieces (used to state what they compute) -/
+
+/-- `c + a mod what` for `a, c < what`. -/
+def addMod (what a c : Nat) : Nat := if c + a ≥ what then c + a - what else c + a
+
+/-- `x − y mod what` for `x, y < what`. -/
+def subMod (what x y : Nat) : Nat := if x < y then what + x - y else x - y
+
+/-- `(g, what / g)` in ascending order. -/
+def pqFinish (what g : Nat) : Nat × Nat :=
+  let p := g
+  let q := what / g
+  if p > q then (q, p) else (p, q)
 
 end TdModel.C13
